@@ -165,6 +165,8 @@ impl Date {
     /// Get local system date
     #[inline]
     pub fn now() -> Result<Date> {
+        #[cfg(feature = "verif-hooks")]
+        use crate::verif_hooks::Local;
         let now = Local::now().naive_local();
         Ok(Date::new(
             SqlDate::try_from_ymd(now.year(), now.month(), now.day())?,
@@ -387,6 +389,8 @@ impl TryFrom<Time> for Date {
 
     #[inline]
     fn try_from(time: Time) -> Result<Self> {
+        #[cfg(feature = "verif-hooks")]
+        use crate::verif_hooks::Local;
         let now = Local::now().naive_local();
         Ok(Date::new(
             SqlDate::try_from_ymd(now.year(), now.month(), now.day())?,
